@@ -135,7 +135,7 @@ void *__wrap_malloc(size_t n)
     if (!g_track) return __real_malloc(n);
     if (should_fail()) { errno = ENOMEM; return NULL; }
     void *p = __real_malloc(n);
-    if (p) { memset(p, 0xA5, n); lt_insert(p, n); }
+    if (p) { memset(p, 0x7F, n); lt_insert(p, n); }   /* 0x7f7f..: huge finite double/float, out-of-range index: uninitialised reads become loud */
     return p;
 }
 void *__wrap_calloc(size_t a, size_t b)
@@ -218,9 +218,13 @@ int xerbla_(char *srname, int *info)
  * library critical sections to be yield points. */
 int __real_pthread_mutex_lock(pthread_mutex_t *);
 extern int ctl_mutex_wait_step(void);      /* sched.c: returns 0 when the caller is not a controlled worker */
+extern void slu_mt_verif_event(int kind, long pnum, long a, long b, long c, const void *ctx);
+#define HXV_LOCK_ACQUIRE 100     /* harness-internal event kind: a worker is about to take a library lock (scheduling point) */
 int __wrap_pthread_mutex_lock(pthread_mutex_t *m)
 {
     if (!g_track) return __real_pthread_mutex_lock(m);
+    /* taking a lock is a scheduling point: what a thread read before asking for the lock may be stale by the time it gets it */
+    slu_mt_verif_event(HXV_LOCK_ACQUIRE, -1, 0, 0, 0, m);
     for (;;) {
         int r = pthread_mutex_trylock(m);
         if (r != EBUSY) return r;
@@ -267,6 +271,7 @@ static pthread_mutex_t *omp_crit_find(void **pptr)
 void __wrap_GOMP_critical_name_start(void **pptr)
 {
     pthread_mutex_t *m = omp_crit_find(pptr);
+    slu_mt_verif_event(HXV_LOCK_ACQUIRE, -1, 0, 0, 0, m);
     for (;;) {
         int r = pthread_mutex_trylock(m);
         if (r != EBUSY) return;
